@@ -86,7 +86,7 @@ namespace occa {
                   expr arg = call.args[orderIndex];
                   expr dim = dimAttr.args[orderIndex].expr;
 
-                  index = arg + expr::parens(expr::parens(dim) * expr::parens(index));
+                  index = expr::parens(arg) + expr::parens(expr::parens(dim) * expr::parens(index));
                 }
 
                 expr expansion = expr(call.value)[index];
